@@ -1,6 +1,7 @@
 import Gzx.Driver.C01
 import Gzx.Driver.C02
 import Gzx.Driver.C03
+import Gzx.Driver.C03Row39
 import Gzx.Driver.C04
 import Gzx.Driver.C05
 import Gzx.Driver.C06
@@ -30,6 +31,7 @@ def dispatch (line : String) : String :=
   | "c01" :: rest => C01.handle rest
   | "c02" :: rest => C02.handle rest
   | "c03" :: rest => C03.handle rest
+  | "row39" :: rest => C03Row39.handle rest
   | "c04" :: rest => C04.handle rest
   | "c05" :: rest => C05.handle rest
   | "c06" :: rest => C06.handle rest
